@@ -32,8 +32,13 @@ def make_service():
 
     def h_mal(msg, addr):
         raise service.MalformedMessageError("no")
-    svc.register_method(HANDLERS["bytes"], h_bytes)
-    svc.register_method(HANDLERS["none"], h_none)
+    import functools
+
+    class Callable:          # a handler object (no __name__, like functools.partial)
+        def __call__(self, msg, addr):
+            return h_none(msg, addr)
+    svc.register_method(HANDLERS["bytes"], functools.partial(lambda extra, msg, addr: h_bytes(msg, addr), "bound argument"))
+    svc.register_method(HANDLERS["none"], Callable())
     svc.register_method(HANDLERS["malformed"], h_mal)
     return svc, sent, state
 
